@@ -181,6 +181,11 @@ func collidingD(env *ty.Env, t *ty.Ty, depth int) []*ty.Val {
 			return []*ty.Val{{K: ty.VPtr, Elems: []*ty.Val{in[0]}}, {K: ty.VPtr, Elems: []*ty.Val{in[1]}}}
 		}
 	case ty.Map:
+		if ku, vu := env.Under(u.Key), env.Under(u.Elem); ku.K == ty.Basic && ku.B == "int" && (vu.K == ty.Slice || vu.K == ty.Ptr || vu.K == ty.Map) {
+			// equal length, different keys, every value nil: 31^3*1 + 31*1000 = 31^3*2 + 31*39 (a lookup that takes a
+			// missing key for a stored nil calls these two maps equal)
+			return []*ty.Val{{K: ty.VMap, Elems: []*ty.Val{iv(1), nilv(), iv(1000), nilv()}}, {K: ty.VMap, Elems: []*ty.Val{iv(2), nilv(), iv(39), nilv()}}}
+		}
 		if env.Under(u.Key).K == ty.Basic && env.Under(u.Key).B == "string" {
 			return []*ty.Val{{K: ty.VMap, Elems: []*ty.Val{sv("\xff"), iv(1)}}, {K: ty.VMap, Elems: []*ty.Val{sv("\xfe"), iv(1)}}}
 		}
@@ -257,7 +262,9 @@ func main() {
 
 	// ---- parameter and result type universes
 	comparable := []*ty.Ty{b("int"), b("string"), b("float64"), b("bool"), n(0), n(1), n(2), n(3), n(5), n(15)}
-	noncomp := []*ty.Ty{ty.Sl(b("int")), ty.P(n(5)), ty.M(b("string"), b("int")), n(6), ty.Sl(b("float64")), ty.Sl(b("string"))}
+	noncomp := []*ty.Ty{ty.Sl(b("int")), ty.P(n(5)), ty.M(b("string"), b("int")), n(6), ty.Sl(b("float64")), ty.Sl(b("string")),
+		// a bool-keyed map (hashed over its sorted keys like any other) and a map with nil-able values
+		ty.M(b("bool"), ty.Sl(b("string"))), ty.M(b("int"), ty.Sl(b("string")))}
 	if *thorough {
 		comparable = append(comparable, n(14), ty.Ar(2, b("string")), b("int8"), b("uint64"), b("complex128"), n(21))
 		noncomp = append(noncomp, n(11), n(12), n(13), ty.P(b("int")), ty.Sl(n(5)), ty.P(n(6)), ty.M(b("int"), ty.Sl(b("int"))), n(7))
